@@ -104,7 +104,8 @@ def snippet(rng) -> bytes:
                     'getval_op', 'getval_op',
                     'dscalar', 'dpoint', 'sign', 'sign_stack', 'masu', 'masv',
                     'das', 'rcs', 'rc', 'getval', 'getmsg', 'cts', 'flag',
-                    'ret', 'checksig', 'write_stackkey', 'template'))
+                    'ret', 'checksig', 'write_stackkey', 'template',
+                    'template'))
     if k == 'write':
         key = key_for(rng)[:255]
         n = rng.randrange(0, 3)
@@ -142,8 +143,8 @@ def snippet(rng) -> bytes:
     if k == 'dpoint':
         return isa.push(SCALAR) + O('DERIVE_POINT') + O('POP0')
     if k == 'sign':
-        return isa.push(SEED) + O('SIGN') + bytes([rng.choice((0, 1, 255))]) \
-            + O('POP0')
+        return isa.push(SEED) + O('SIGN') + bytes([rng.choice(
+            (0, 1, 255, rng.getrandbits(8)))]) + O('POP0')
     if k == 'sign_stack':
         return isa.push(b'msg') + isa.push(SEED) + O('SIGN_STACK') + O('POP0')
     if k == 'masu':
@@ -181,7 +182,14 @@ def snippet(rng) -> bytes:
         return isa.push(bytes(64)) + isa.push(TPOINT) + O('CHECK_SIG') \
             + b'\x00' + O('POP0')
     if k == 'template':
-        return isa.push(b'abc') + O('CHECK_TEMPLATE') + b'\x01' + O('POP0')
+        # any flag byte (naming present AND absent sigfields), one template
+        # per named field, plain and _VERIFY form
+        fl = rng.choice((1, 1, 2, 4, 3, 0x80, 0xff, rng.getrandbits(8)))
+        n = bin(fl).count('1')
+        if rng.random() < 0.7:
+            return isa.push(b'abc') * n + O('CHECK_TEMPLATE') + bytes([fl]) \
+                + O('POP0')
+        return isa.push(b'abc') * n + O('CHECK_TEMPLATE_VERIFY') + bytes([fl])
     # write_stackkey: copy a protected value under a protected-looking key
     key = key_for(rng)[:255]
     name = rng.choice(('sigfield1', 'timestamp')).encode()
